@@ -95,9 +95,16 @@ pub fn main(args: &util::Args) {
             go_stmt: i % 7 == 3,
             max_depth: 1 + i % 3,
             effects: true,
+            wildcard_arrays: i % 10 == 8,
         };
         let (src, feats) = crate::progen::gen_program(&mut rng, cfg);
-        let id = format!("gen:{}:{}{}", args.seed, i, if cfg.closure_flows { ":cf" } else { "" });
+        let id = format!(
+            "gen:{}:{}{}{}",
+            args.seed,
+            i,
+            if cfg.closure_flows { ":cf" } else { "" },
+            if cfg.wildcard_arrays { ":wa" } else { "" }
+        );
         match util::compile_text(&dir, &src) {
             Outcome::Ok(c) => {
                 for (k, v) in feats {
